@@ -567,3 +567,28 @@ pub fn obl_frame_crc(s: &mut Src, ctx: &mut Ctx, len: usize, b0: u8, b4: i32) {
         }
     }
 }
+
+/// General native oracle (bounded sweeps and counterexample search; never run under Kani):
+/// first input byte = buffer length (mod 33), then the buffer.  Full contract of Frame::from_bytes.
+pub fn obl_frame_any(s: &mut Src, ctx: &mut Ctx) {
+    let len = (s.u8() as usize) % 33;
+    let mut b = [0u8; 32];
+    s.fill(&mut b[..len]);
+    let buf = &b[..len];
+    let r = Frame::from_bytes(buf);
+    let acc = accept(buf);
+    vnote!(ctx, "frame {:02x?} -> accept(spec)={} result={:?}", buf, acc, r);
+    match &r {
+        Ok(f) => {
+            vcheck!(ctx, acc, "[C02] a frame is produced only for a supported format, a complete buffer and an in-range operational status");
+            if acc {
+                let need = need_bytes(df_of(b[0]));
+                vcheck!(ctx, f.crc == syndrome(&b[..need], need), "[C03,C02] checksum == Mode S parity syndrome of exactly the first 7/14 bytes");
+                cmp_df(ctx, &b[..need], &f.df);
+            }
+        }
+        Err(_) => {
+            vcheck!(ctx, !acc, "[C02] every complete frame of a supported format is accepted (except out-of-range operational status)");
+        }
+    }
+}
